@@ -23,6 +23,7 @@ Definition step (op : list tok) : list tok :=
   match op with
   | TS name :: args =>
     if name =? "consts" then [tn_nat max_fds_out; tn_nat max_bytes_out]
+    else if name =? "bb" then []      (* black-box run: no model observation *)
     else if name =? "xfer" then
       match args with
       | TN h :: TN t :: TN c :: TN u :: rest =>
